@@ -134,29 +134,42 @@ def field_size(pack, cnt):
     return PERL_SIZE[pack] * cnt
 
 
-def run_impl(case, table):
+def run_impl(case, table, env=None):
     from rig.machine_control import scp_connection as sc
     script = case["script"]
 
     def scr(k, data):
         return [(d, tuple(kd) if isinstance(kd, list) else kd) for d, kd in script.get(str(k), [[1, "ok"]])]
 
-    machine = simmachine.SimMachine(2, 2, buffer_size=case["buf"])
-    net = simnet.Net(machine.handle, scr)
+    if env is not None and "machine" in env:
+        machine, net = env["machine"], env["net"]      # a session: several operations on one controller
+    else:
+        machine = simmachine.SimMachine(2, 2, buffer_size=case["buf"])
+        net = simnet.Net(machine.handle, scr)
+        if env is not None:
+            env["machine"], env["net"] = machine, net
+    log_start = len(net.log)
     res = {}
     before = {}
+    # every chip keeps its per-core blocks at its own address
+    vcpu_base = 0xe5007000 + 0x1000 * (2 * case["x"] + case["y"])
     if case["op"] == "vcpu":
         voff = table["sv"]["fields"]["vcpu_base"][0]
-        machine.poke(case["x"], case["y"], table["sv"]["base"] + voff, struct.pack("<I", 0xe5007000))
+        machine.poke(case["x"], case["y"], table["sv"]["base"] + voff, struct.pack("<I", vcpu_base))
         off, pack, cnt = table["vcpu"]["fields"][case["field"]]
         if pack not in PERL_SIZE:
             # a string field holds text (the code decodes it as UTF-8)
             r0 = random.Random(case["seed"] ^ 0x5bd1)
             txt = bytes(r0.choice(b"abcdefXYZ_0189") for _ in range(r0.randrange(0, field_size(pack, cnt) + 1)))
-            machine.poke(case["x"], case["y"], 0xe5007000 + table["vcpu"]["size"] * case["p"] + off,
+            machine.poke(case["x"], case["y"], vcpu_base + table["vcpu"]["size"] * case["p"] + off,
                          txt.ljust(field_size(pack, cnt), b"\x00"))
     with simnet.installed(net):
-        mc = simmachine.make_controller(net, timeout=float(case["timeout"]))
+        if env is not None and "mc" in env:
+            mc = env["mc"]
+        else:
+            mc = simmachine.make_controller(net, timeout=float(case["timeout"]))
+            if env is not None:
+                env["mc"] = mc
         mc._window_size = case["window"]
         x, y, p = case["x"], case["y"], case["p"]
         op = case["op"]
@@ -239,7 +252,7 @@ def run_impl(case, table):
             res["error"] = "struct.error"
     # distinct data commands in first-transmission order (seq identifies a command)
     seen, cmds = set(), []
-    for e in net.log:
+    for e in net.log[log_start:]:
         if e[0] == "send":
             q = simnet.parse_scp(e[2])
             if q["cmd"] in (2, 3, 5, 17, 18) and q["seq"] not in seen:
@@ -280,10 +293,10 @@ def cmds_as_chunks(cmds):
     return out
 
 
-def eval_cases(ctx, cases, table):
+def eval_cases(ctx, cases, table, env=None):
     reqs, meta = [], []
     for case in cases:
-        res = run_impl(case, table)
+        res = run_impl(case, table, env)
         desc = case
         ctx.traces += 1
         ctx.tag("op_" + case["op"], "result_" + (res.get("error") or "ok"))
@@ -382,6 +395,30 @@ def run(ctx):
     cases = [gen_case(ctx.rng, {k: v["fields"] for k, v in table.items()}) for _ in range(n)]
     for i in range(0, len(cases), 2000):
         eval_cases(ctx, cases[i:i + 2000], table)
+    # sessions: several operations through ONE controller (state kept by the controller between
+    # operations - cached addresses, buffer sizes, sequence numbers - must not leak from one chip or
+    # operation into the next); no network faults here, fresh chips each step
+    fields = {k: v["fields"] for k, v in table.items()}
+    for _ in range(ctx.scale(60, 1500) * (4 if ctx.extended else 1)):
+        buf, window = ctx.rng.choice(BUFS), ctx.rng.choice([1, 2, 8])
+        sess = []
+        chips = [(0, 0), (0, 1), (1, 0), (1, 1)]
+        ctx.rng.shuffle(chips)
+        for i in range(ctx.rng.randrange(2, 5)):
+            c = gen_case(ctx.rng, fields)
+            if ctx.rng.random() < 0.6:
+                c["op"] = "vcpu"
+                c["field"] = ctx.rng.choice(sorted(n for n in fields["vcpu"] if n != "__PAD"))
+                c["rw"] = ctx.rng.choice(["r", "w"])
+                c["seed"] = ctx.rng.randrange(1 << 30)
+            c.update(buf=buf, window=window, script={}, x=chips[i][0], y=chips[i][1], session_step=i)
+            if "data" in c:
+                c["data"] = c["data"][:c["len"]]
+            # the replay of a step needs the steps before it
+            c["session_history"] = [{k: v for k, v in h.items() if k != "session_history"} for h in sess]
+            sess.append(c)
+        ctx.tag("session")
+        eval_cases(ctx, sess, table, env={})
     # composition with C06 (theorems read_through_burst / write_through_burst in Props/C06): the real
     # SCPConnection.read/write under fault schedules vs the Lean models readThrough / memAfter fed with
     # the recorded environment.  Here a disagreement is verdict-bearing.
@@ -395,7 +432,10 @@ def run(ctx):
 def replay(ctx, payload):
     from harness import common
     ctx.extra["rule"] = RULE
-    if "rw" in payload["case"]:
+    if "session_history" in payload["case"]:
+        case = payload["case"]
+        eval_cases(ctx, case["session_history"] + [case], independent_struct_table(common.REPO), env={})
+    elif "rw" in payload["case"]:
         from harness import c06
         ctx.rw_decides = True
         c06.eval_rw_cases(ctx, [payload["case"]])
